@@ -1,5 +1,118 @@
-"""Native (as-installed C back end of decimalfp) tier of C01 -- see DESIGN 3."""
+"""Native tier of C01: the same conversion programs under the as-installed C
+back end of decimalfp, crash-isolated (one forked child per program), compared
+record by record with the pure-Python run -- DESIGN.md section 3.
+
+A program is *hazard-predicted* iff, in the pure-Python run, it performed a
+true division whose dividend has exactly nine fractional digits and whose
+divisor is integral with precision 0 (the trigger of the known defect in
+libfpdec's fpdec_div_abs_shint_by_shint; deliberately wider than the C
+condition).  Divergence or a crash on a predicted program is the known
+mechanism `decimalfp-native-div-prec9`; on any other program it is a
+violation the known-findings file does not list.
+"""
+from __future__ import annotations
+
+from fractions import Fraction as F
+
+from ..cases import Case, run_cases, Q, U, V, M, OP
+from ..ctl import Runner, num, val
+from ..models import si_table as SI
+from ..replay import strip
+
+MECH = "decimalfp-native-div-prec9"
+
+
+def programs(rng, tier):
+    out = []
+    types = [t for t in SI.LINEAR_TYPES if t not in SI.QUANTUM]
+    amounts = [(F(5), "D"), (F(5, 2), "D"), (F(7, 3), "F"),
+               (F(123456789, 10 ** 9), "D"), (F(1, 10 ** 9), "D")]
+    if tier == "thorough":
+        amounts += [(F(-987654321, 10 ** 9), "D"), (F(10 ** 12 + 1, 10 ** 9),
+                                                    "D"), (F(1, 3), "F")]
+    for tname in types:
+        us = SI.units_of(tname)
+        for s1 in us:
+            for s2 in us:
+                if s1 == s2:
+                    continue
+                for j, (x, kind) in enumerate(amounts):
+                    if tier == "quick" and j != 1 and rng.random() > 0.04:
+                        continue
+                    steps = [{"id": "q", "k": "q", "e": Q(num(x, kind), s1)},
+                             {"k": "r", "e": M(V("q"), "convert", U(s2))},
+                             {"k": "d1", "e": OP("/", V("q"), ["i", 1])},
+                             {"k": "d3", "e": OP("/", V("q"), ["i", 3])},
+                             {"k": "eq", "e": OP("==", M(V("q"), "convert",
+                                                         U(s2)), V("q"))}]
+                    out.append((steps, "%s %s -> %s" % (x, s1, s2)))
+    return out
 
 
 def run(chk, R, tier, seed, rng):
-    chk.extra["native_tier"] = "not built yet"
+    progs = programs(rng, tier)
+    # hazard flags need the division logger: separate pure run with divlog
+    Rp = Runner(native=False, accel=True, reach=False)
+    Rn = Runner(native=True, accel=False, reach=False)
+    try:
+        res_p = _run(Rp, progs, divlog=True)
+        res_n = _run(Rn, progs, divlog=False)
+        chk.extra["native_backend"] = Rn.meta.get("backend")
+    finally:
+        Rp.close()
+        Rn.close()
+    if Rn.meta.get("backend") != "native":
+        chk.extra["native_tier"] = "native back end not available: skipped"
+        return
+    predicted = diverged_pred = diverged_unpred = clean = 0
+    for i, (steps, desc) in enumerate(progs):
+        rp, rn = res_p.get(i), res_n.get(i)
+        if rp is None or rp.get("died"):
+            chk.inconclusive_because("native tier: pure-Python run of %s "
+                                     "failed" % desc)
+            continue
+        hazard = rp.get("hazard", 0) > 0
+        predicted += hazard
+        chk.case(("native", desc), nontrivial=True)
+        same = rn is not None and not rn.get("died") and \
+            strip(rn["obs"]) == strip(rp["obs"])
+        if same:
+            clean += 1
+            continue
+        what = ("native decimalfp back end: %s: %s" % (
+            desc, ("process died (%s)" % rn.get("died")) if rn is None or
+            rn.get("died") else "observations differ from the pure-Python "
+            "back end: %s vs %s" % (_brief(rn["obs"]), _brief(rp["obs"]))))
+        if hazard:
+            diverged_pred += 1
+            chk.violation(what, dict(steps=steps, native=rn and rn.get("obs"),
+                                     pure=rp["obs"], hazard=True), MECH)
+        else:
+            diverged_unpred += 1
+            chk.violation(what + " (NOT hazard-predicted)",
+                          dict(steps=steps, native=rn and rn.get("obs"),
+                               pure=rp["obs"], hazard=False),
+                          "native-divergence-unpredicted")
+    chk.extra["native_tier"] = dict(
+        programs=len(progs), hazard_predicted=predicted,
+        diverged_predicted=diverged_pred,
+        diverged_unpredicted=diverged_unpred, identical=clean)
+    chk.count("native tier programs", len(progs))
+    chk.count("native tier hazard-predicted programs", predicted)
+
+
+def _run(R, progs, divlog):
+    programs_ = [{"pid": i, "isolate": True, "steps": st}
+                 for i, (st, _) in enumerate(progs)]
+    return R.run(programs_, prog_timeout=20, divlog=divlog, timeout=900)
+
+
+def _brief(obs):
+    out = {}
+    for k, v in obs.items():
+        if v.get("k") in ("Q", "N") and v.get("a"):
+            a = v["a"]
+            out[k] = "%s/%s" % (str(a[0])[:24], str(a[1])[:24])
+        else:
+            out[k] = v.get("cls") or v.get("v") or v.get("k")
+    return out
